@@ -284,6 +284,8 @@ pub fn directed() -> Vec<Case> {
     let extended = [
         ".x", "a.x", ".x.y", "#i.x", "b .x", ".x b", "a > .x", ".x + b", ".x ~ b", "a .x > b", ":not(.x)", ":is(.x)", ":is(.x, b) .y",
         ":not(a .x)", "a:not(.x) b", ".x:hover", ".x, .y", ".x .x", ":is(a, #i), .x", ":is(.y, #i).x", "%p .x", ".x[p]",
+        // lists whose members differ only in a combinator: neither generated variant is redundant
+        "a + .x, a ~ .x", "a ~ .x, a + .x", "a > .x, a .x", "a .x, a > .x", ".x + b, .x ~ b", ".x > b, .x b",
     ];
     let extenders = ["b", ".y", "a.y", "#j", "#i.z", ".y.z", ":hover", "b .y", "a > .y", ".z + .y", ".z ~ b", ".y, .z", "a .y, #j"];
     let mut out = vec![];
@@ -348,6 +350,24 @@ pub fn directed() -> Vec<Case> {
                     items: p.iter().map(|i| rules[*i].clone()).collect(),
                     seed: k.wrapping_mul(0x9e37_79b9_7f4a_7c15),
                     class: "directed:chain-order".into(),
+                });
+            }
+        }
+    }
+    // the same selector pseudo (mentioning the target) in several rules, all before / after the extend
+    for pseudo in [":not(.x)", ":is(.x)", ":is(.x, b)", ":not(.x, .y)"] {
+        for ext in [".z", "a.z", "#j"] {
+            let r1 = r(&format!("a{}", pseudo), &[]);
+            let r2 = r(&format!("b{}", pseudo), &[]);
+            let r3 = r(&format!(".y {}", pseudo), &[]);
+            let e = r(ext, &[".x"]);
+            for order in [vec![0usize, 1, 2, 3], vec![3, 0, 1, 2], vec![0, 3, 1, 2], vec![0, 1, 3, 2]] {
+                let all = [r1.clone(), r2.clone(), r3.clone(), e.clone()];
+                k += 1;
+                out.push(Case {
+                    items: order.iter().map(|i| all[*i].clone()).collect(),
+                    seed: k.wrapping_mul(0x9e37_79b9_7f4a_7c15),
+                    class: "directed:same-pseudo-in-several-rules".into(),
                 });
             }
         }
